@@ -13,6 +13,7 @@ import MosnVerif.Model.Http1Method
 import MosnVerif.Model.Http1Framing
 import MosnVerif.Model.Reencode
 import MosnVerif.Model.ReencodeSpec
+import MosnVerif.Drive.C01H2x
 /-!
 Driver of C01 (forwarding fidelity).  Case lines:
 
@@ -457,6 +458,9 @@ def run1 (caseToks impl : List String) : String :=
   | "http1m" :: r => http1MethodCase r impl
   | ["relayup", mode, gs, cs, ss] => relayUpCase mode gs cs ss impl
   | "http2" :: r => http2Case r impl
+  | "h2t" :: r => C01H2x.run "h2t" r impl
+  | "x12" :: r => C01H2x.run "x12" r impl
+  | "x21" :: r => C01H2x.run "x21" r impl
   | _ => "E E unknown-kind"
 
 /-! ### the same modified frame object encoded several times
